@@ -806,7 +806,7 @@ impl World {
             // resuming the parked drop early is a deviation
             all.push(Ev::Stop);
         }
-        if std::env::var_os("MC_SHOW_OPTIONS").is_some() {
+        if crate::mock::show_options() {
             self.log.push(Rec::S("options", format!("{all:?}")));
         }
         let k = self.ch.borrow_mut().choose("step", all.len());
